@@ -39,7 +39,10 @@ type harness struct {
 	seq    int64
 	nCases int64 // part A cases really executed (memo misses)
 	nSteps int64 // part B steps really executed
+	nPre    int64 // scenario "pre": steps really executed by the search
+	nShrink int64 // scenario "pre": steps executed while minimising the deviation vector of a failure
 
+	denCache  sync.Map // entry -> probes it denotes (reference computation by Git, shared by all configurations)
 	exploring int32 // 1 while exploring: violations are held back and released once per fingerprint
 	fpMu      sync.Mutex
 	held      map[string]map[string]heldViolation
@@ -184,8 +187,15 @@ func (h *harness) checkAttr(repo string, attrs []string, paths []string) (map[st
 		in.WriteByte(0)
 	}
 	r := h.w.RunIn(repo, []byte(in.String()), nil, "git", args...)
+	for try := 0; r.Code == -2 && try < 3; try++ { // the program could not be started at all (fork/exec failure on an overloaded machine): a tool guard, like a timeout
+		time.Sleep(200 * time.Millisecond)
+		r = h.w.RunIn(repo, []byte(in.String()), nil, "git", args...)
+	}
 	if r.TimedOut {
 		return nil, "git check-attr timed out"
+	}
+	if r.Code == -2 {
+		return nil, "git check-attr could not be executed"
 	}
 	if r.Code != 0 {
 		panic(vx.ToolError{Msg: fmt.Sprintf("git check-attr failed: %s", r)})
@@ -566,8 +576,8 @@ func (c *aCtx) do(k aKey) *aRes {
 	cmd = append(cmd, "--", arg)
 	r.Cmd = cmd
 	res := h.w.LFS(cwd, cmd...)
-	if res.TimedOut {
-		r.Inconcl = "git lfs track timed out"
+	if res.TimedOut || res.Code == -2 {
+		r.Inconcl = "git lfs track timed out or could not be executed"
 		return r
 	}
 	r.Exit, r.Output = res.Code, strings.TrimSpace(res.Out+res.Err)
@@ -604,7 +614,7 @@ func (c *aCtx) do(k aKey) *aRes {
 	}
 	// re-running the same command changes nothing
 	res2 := h.w.LFS(cwd, cmd...)
-	if res2.TimedOut {
+	if res2.TimedOut || res2.Code == -2 {
 		r.Inconcl = "git lfs track timed out"
 		return r
 	}
@@ -614,7 +624,7 @@ func (c *aCtx) do(k aKey) *aRes {
 	// untrack (pattern mode: the argument of untrack is a pattern, the same one)
 	if k.mode == modePattern {
 		res3 := h.w.LFS(cwd, "untrack", "--", arg)
-		if res3.TimedOut {
+		if res3.TimedOut || res3.Code == -2 {
 			r.Inconcl = "git lfs untrack timed out"
 			return r
 		}
@@ -793,6 +803,7 @@ type bEntry struct {
 	Filename bool
 	Kinds    []int // operations offered for this entry (nil: all)
 	MayFail  bool  // the pattern matches an index entry: git-lfs may legitimately refuse it or fail to touch a file
+	Role     string // scenario "pre" only: same / other / below / line (relation of the entry to the generated line)
 }
 
 func (e bEntry) label() string {
@@ -841,6 +852,15 @@ type bInit struct {
 	Name      string
 	HasRoot   bool
 	Root      string
+	HasSub    bool
+	Sub       string
+	Vec       []int // scenario "pre": the deviation vector this file was generated from
+	FromGit   bool  // scenario "pre": whether entry 0 (the generated line's own pattern) is present is taken from Git's reading of the file
+	NoLineRoot, NoLineSub string // scenario "pre": the same files without the generated line (what the OTHER lines mean is taken from them)
+	DepthCap  int   // scenario "pre": >0 = only sequences of at most this many operations are explored from this file (a stated bound, not a cap hit)
+	SameOnly  bool  // scenario "pre": operations on the OTHER pattern are not applied to this file (a stated bound of the quick tier)
+	once      sync.Once
+	analysed  bool
 	Present   map[string]bool // entry label -> lockable: patterns the hand-written initial file already tracks
 	Model     map[int]bool    // the same, resolved against the alphabet of the configuration
 	StaticLfs map[string]bool // probes that other lines of the initial file make filter=lfs
@@ -864,10 +884,12 @@ type bCtx struct {
 	h       *harness
 	entries []bEntry
 	ops     []bOp
-	inits   []bInit
 	den     []map[string]bool // entry -> denoted probes
 	memo    sync.Map          // seqKey -> bState
 	maxLen  int
+	probes  []string  // probe paths of this configuration
+	inits   []*bInit  // initial files (model / static attributes computed on first use)
+	pre     *preSpace // non-nil: configuration of scenario "pre" (initial files generated from the line/file grammar)
 }
 
 func (c *bCtx) opString(o bOp) string {
@@ -893,8 +915,8 @@ func seqKey(init int, ops []int) string {
 	return b.String()
 }
 
-func (c *bCtx) initState(in bInit) bState {
-	s := bState{HasRoot: in.HasRoot, Root: in.Root}
+func (c *bCtx) initState(in *bInit) bState {
+	s := bState{HasRoot: in.HasRoot, Root: in.Root, HasSub: in.HasSub, Sub: in.Sub}
 	if c.world == "idx" {
 		s.Modes = readModes(c.h.tplIdx)
 	}
@@ -957,11 +979,11 @@ func (c *bCtx) denote(e bEntry) map[string]bool {
 	repo := c.materialize(bState{})
 	defer os.RemoveAll(repo)
 	os.WriteFile(filepath.Join(repo, e.Cwd, ".gitattributes"), []byte(cquote(pat)+" c19ref\n"), 0644)
-	m, inc := c.h.checkAttr(repo, []string{"c19ref"}, bProbes)
+	m, inc := c.h.checkAttr(repo, []string{"c19ref"}, c.probes)
 	if inc != "" {
 		panic(vx.ToolError{Msg: inc})
 	}
-	for _, u := range bProbes {
+	for _, u := range c.probes {
 		if m[u]["c19ref"] == "set" {
 			d[u] = true
 		}
@@ -1004,8 +1026,14 @@ func (c *bCtx) modelSays(m map[int]bool, in *bInit, u string) (lfs, lockable boo
 	return
 }
 
+func (c *bCtx) scenario() string {
+	if c.pre != nil {
+		return "pre"
+	}
+	return "seq"
+}
+
 func (c *bCtx) run(x *vx.X) vx.Result {
-	h := c.h
 	ii := x.In(len(c.inits))
 	var ops []int
 	for len(ops) < c.maxLen {
@@ -1015,7 +1043,25 @@ func (c *bCtx) run(x *vx.X) vx.Result {
 		}
 		ops = append(ops, o-1)
 	}
-	init := c.inits[ii]
+	out, _ := c.execSeq(ii, ops, false)
+	c.h.hold(c.scenario(), x, &out)
+	return out
+}
+
+// stepV is one failed clause of one step.
+type stepV struct {
+	Clause string
+	Kind   int
+	E      int
+}
+
+// execSeq applies the operations to the initial file ii and judges every step; it also returns the failed clauses of the
+// LAST step.  raw (scenario "pre", used while minimising a deviation vector): fingerprints are not computed.
+func (c *bCtx) execSeq(ii int, ops []int, raw bool) (vx.Result, []stepV) {
+	h := c.h
+	scen := c.scenario()
+	init := c.initOf(ii)
+	var lastV []stepV
 	out := vx.Result{Counters: map[string]int64{}}
 	// longest already-computed prefix (only a shortcut: the state is exactly the bytes of the two files)
 	start := 0
@@ -1034,9 +1080,9 @@ func (c *bCtx) run(x *vx.X) vx.Result {
 	}
 	if len(ops) == start {
 		out.Outcome = "no-op"
-		out.Sample = map[string]interface{}{"scenario": "seq", "initial": init.Name, "ops": trace}
+		out.Sample = map[string]interface{}{"scenario": scen, "initial": init.Name, "ops": trace}
 		c.memo.Store(seqKey(ii, ops), bMemo{st, model})
-		return out
+		return out, nil
 	}
 	repo := c.materialize(st)
 	defer os.RemoveAll(repo)
@@ -1045,16 +1091,23 @@ func (c *bCtx) run(x *vx.X) vx.Result {
 		o := c.ops[ops[j]]
 		e := c.entries[o.E]
 		D := c.den[o.E]
-		atomic.AddInt64(&h.nSteps, 1)
-		before, inc := h.checkAttr(repo, nil, bProbes)
+		if raw {
+			atomic.AddInt64(&h.nShrink, 1)
+		} else if c.pre != nil {
+			atomic.AddInt64(&h.nPre, 1)
+		} else {
+			atomic.AddInt64(&h.nSteps, 1)
+		}
+		lastV = nil
+		before, inc := h.checkAttr(repo, nil, c.probes)
 		if inc != "" {
 			out.Inconcl = inc
-			return out
+			return out, nil
 		}
 		// does the world before this step agree with what the user asked so far?
 		tainted := false
-		for _, u := range bProbes {
-			ml, mk := c.modelSays(model, &init, u)
+		for _, u := range c.probes {
+			ml, mk := c.modelSays(model, init, u)
 			if (before[u]["filter"] == "lfs") != ml || (before[u]["lockable"] == "set") != mk {
 				tainted = true
 			}
@@ -1065,14 +1118,14 @@ func (c *bCtx) run(x *vx.X) vx.Result {
 		}
 		args = append(args, "--", e.Pat)
 		res := h.w.LFS(filepath.Join(repo, e.Cwd), args...)
-		if res.TimedOut {
-			out.Inconcl = "git lfs timed out"
-			return out
+		if res.TimedOut || res.Code == -2 {
+			out.Inconcl = "git lfs timed out or could not be executed"
+			return out, nil
 		}
-		after, inc := h.checkAttr(repo, nil, bProbes)
+		after, inc := h.checkAttr(repo, nil, c.probes)
 		if inc != "" {
 			out.Inconcl = inc
-			return out
+			return out, nil
 		}
 		ns := c.readState(repo)
 		modelAfter := applyModel(model, o)
@@ -1101,11 +1154,23 @@ func (c *bCtx) run(x *vx.X) vx.Result {
 		out.Transitions++
 		out.States = append(out.States, vx.Hash64(ns.key()))
 		stepDesc := fmt.Sprintf("initial file %s; ops: %s", init.Name, strings.Join(trace, " ; "))
+		lbl := e.label()
+		if c.pre != nil {
+			lbl = e.Role
+		}
 		viol := func(clause, id, msg string, paths []string) {
+			lastV = append(lastV, stepV{clause, o.Kind, o.E})
 			fp := "C19:seq-" + clause + ":" + id
+			if c.pre != nil {
+				if raw {
+					return
+				}
+				// the class of a failure is the minimal set of deviations of the initial file that still produces it
+				fp = "C19:pre-" + clause + ":" + id + ":" + c.pre.minimalClass(c, ii, ops[:j+1], clause)
+			}
 			out.Violations = append(out.Violations, vx.Violation{Fingerprint: fp,
 				Msg:    fmt.Sprintf("%s: %s\n%s\nroot .gitattributes before=%q after=%q\nsub/.gitattributes before=%q after=%q\noutput of last command: %q", msg, strings.Join(quoteAll(capList(paths, 6)), ", "), stepDesc, st.Root, ns.Root, st.Sub, ns.Sub, strings.TrimSpace(res.Out+res.Err)),
-				Detail: map[string]interface{}{"initial": init.Name, "ops": trace, "paths": paths, "before": st, "after": ns, "tainted_precondition": tainted}})
+				Detail: map[string]interface{}{"initial": init.Name, "ops": append([]string{}, trace...), "paths": paths, "before": st, "after": ns, "tainted_precondition": tainted}})
 		}
 		var clauses []string
 		fail := func(cl string) {
@@ -1118,23 +1183,26 @@ func (c *bCtx) run(x *vx.X) vx.Result {
 		}
 		// (1) attribute assignments of all other paths are unchanged
 		var changed []string
-		for _, u := range bProbes {
+		for _, u := range c.probes {
 			if !D[u] && attrString(before[u]) != attrString(after[u]) {
 				changed = append(changed, fmt.Sprintf("%s: {%s} -> {%s}", u, attrString(before[u]), attrString(after[u])))
 			}
 		}
-		out.Evals += int64(len(bProbes))
+		out.Evals += int64(len(c.probes))
+		out.Counters[scen+"_clause_evals_others_unchanged"] += int64(len(c.probes) - len(D))
 		if len(changed) > 0 {
 			if failed {
 				fail("others-changed-on-failure")
-				viol("others-changed-on-failure", kindName[o.Kind]+":"+e.label(), fmt.Sprintf("the invocation failed (exit %d) and attributes of paths the argument does not denote changed", res.Code), changed)
+				viol("others-changed-on-failure", kindName[o.Kind]+":"+lbl, fmt.Sprintf("the invocation failed (exit %d) and attributes of paths the argument does not denote changed", res.Code), changed)
 			} else {
 				fail("others-changed")
-				viol("others-changed", kindName[o.Kind]+":"+e.label(), "attributes of paths the argument does not denote changed", changed)
+				viol("others-changed", kindName[o.Kind]+":"+lbl, "attributes of paths the argument does not denote changed", changed)
 			}
 		}
 		// (2) after any track flavour the denoted paths are LFS
 		if o.Kind != kUntrack && !failed {
+			out.Counters[scen+"_clause_evals_denoted_are_lfs"] += int64(len(D))
+			out.Counters[scen+"_clause_evals_lockable_as_asked"] += int64(len(D))
 			var miss []string
 			for u := range D {
 				if after[u]["filter"] != "lfs" {
@@ -1144,7 +1212,7 @@ func (c *bCtx) run(x *vx.X) vx.Result {
 			sort.Strings(miss)
 			if len(miss) > 0 {
 				fail("missing")
-				viol("missing", e.label(), "after "+kindName[o.Kind]+" Git does not report filter=lfs for denoted paths", miss)
+				viol("missing", lbl, "after "+kindName[o.Kind]+" Git does not report filter=lfs for denoted paths", miss)
 			}
 		}
 		// (3) lockable: --lockable sets it on every denoted path; plain track leaves it as it was; --not-lockable never
@@ -1167,7 +1235,7 @@ func (c *bCtx) run(x *vx.X) vx.Result {
 				}
 			case kTrackNL:
 				if !tainted {
-					if _, want := c.modelSays(modelAfter, &init, u); got != want {
+					if _, want := c.modelSays(modelAfter, init, u); got != want {
 						lockBad = append(lockBad, fmt.Sprintf("%s (lockable set=%v, asked=%v)", u, got, want))
 					}
 				} else if got && !was {
@@ -1178,15 +1246,16 @@ func (c *bCtx) run(x *vx.X) vx.Result {
 		sort.Strings(lockBad)
 		if len(lockBad) > 0 {
 			fail("lockable")
-			viol("lockable", kindName[o.Kind]+":"+e.label(), "lockable attribute is not what was asked", lockBad)
+			viol("lockable", kindName[o.Kind]+":"+lbl, "lockable attribute is not what was asked", lockBad)
 		}
 		// (4) untrack: denoted paths are no longer LFS unless another tracked pattern denotes them
 		if o.Kind == kUntrack {
+			out.Counters[scen+"_clause_evals_untrack_removes"] += int64(len(D))
 			var still []string
 			for u := range D {
 				got := after[u]["filter"] == "lfs"
 				if !tainted {
-					want, _ := c.modelSays(modelAfter, &init, u)
+					want, _ := c.modelSays(modelAfter, init, u)
 					if got && !want {
 						still = append(still, u)
 					}
@@ -1206,15 +1275,16 @@ func (c *bCtx) run(x *vx.X) vx.Result {
 			sort.Strings(still)
 			if len(still) > 0 {
 				fail("untrack-still")
-				viol("untrack-still", e.label(), "after untrack Git still reports filter=lfs for denoted paths", still)
+				viol("untrack-still", lbl, "after untrack Git still reports filter=lfs for denoted paths", still)
 			}
 		}
 		// (5) re-running track with the same argument changes nothing
 		if j >= 1 && ops[j] == ops[j-1] && o.Kind != kUntrack {
 			out.Evals++
+			out.Counters[scen+"_clause_evals_rerun_changes_nothing"]++
 			if ns.attrKey() != st.attrKey() {
 				fail("rerun")
-				viol("rerun", kindName[o.Kind]+":"+e.label(), "re-running the same track command changed .gitattributes", []string{})
+				viol("rerun", kindName[o.Kind]+":"+lbl, "re-running the same track command changed .gitattributes", []string{})
 			}
 		}
 		if tainted {
@@ -1228,7 +1298,7 @@ func (c *bCtx) run(x *vx.X) vx.Result {
 		if len(clauses) > 0 {
 			v = strings.Join(clauses, "+")
 		}
-		lastOutcome = fmt.Sprintf("seq|%s|%s|exit%d|%s|%s", kindName[o.Kind], e.label(), res.Code, changedFile, v)
+		lastOutcome = fmt.Sprintf("%s|%s|%s|exit%d|%s|%s", scen, kindName[o.Kind], e.label(), res.Code, changedFile, v)
 		if len(D) > 0 {
 			out.NonTrivial = append(out.NonTrivial, fmt.Sprintf("%016x/%d", vx.Hash64(st.key()), ops[j]))
 		}
@@ -1236,9 +1306,8 @@ func (c *bCtx) run(x *vx.X) vx.Result {
 		c.memo.Store(seqKey(ii, ops[:j+1]), bMemo{ns, modelAfter})
 	}
 	out.Outcome = lastOutcome
-	out.Sample = map[string]interface{}{"scenario": "seq", "initial": init.Name, "ops": trace, "root_gitattributes": st.Root, "sub_gitattributes": st.Sub, "has_sub_file": st.HasSub}
-	h.hold("seq", x, &out)
-	return out
+	out.Sample = map[string]interface{}{"scenario": scen, "initial": init.Name, "ops": trace, "root_gitattributes": st.Root, "sub_gitattributes": st.Sub, "has_sub_file": st.HasSub}
+	return out, lastV
 }
 
 func (c *bCtx) prefix(init int, ops []int) []vx.Point {
@@ -1250,6 +1319,12 @@ func (c *bCtx) prefix(init int, ops []int) []vx.Point {
 		p = append(p, vx.Point{K: vx.Input, N: len(c.ops) + 1, C: 0})
 	}
 	return p
+}
+
+// capped: the initial file is explored only to a stated depth and a sequence of this length has reached it.
+func (c *bCtx) capped(init, pathLen int) bool {
+	d := c.inits[init].DepthCap
+	return d > 0 && pathLen >= d
 }
 
 type bNode struct {
@@ -1266,7 +1341,8 @@ func (c *bCtx) bfs(st *vx.Stats, deadline time.Time, maxStates int) (levels int,
 	seen := map[string]*bNode{}
 	edges := map[string]string{} // stateKey + "\x00" + op -> stateKey
 	var frontier []*bNode
-	for i, in := range c.inits {
+	for i := range c.inits {
+		in := c.initOf(i)
 		s := c.initState(in)
 		if _, ok := seen[s.key()]; !ok {
 			n := &bNode{st: s, init: i}
@@ -1295,11 +1371,18 @@ func (c *bCtx) bfs(st *vx.Stats, deadline time.Time, maxStates int) (levels int,
 		levels++
 		var tasks []*task
 		for _, n := range frontier {
+			if c.capped(n.init, len(n.path)) {
+				st.Counters["states_not_expanded_beyond_stated_depth"]++
+				continue
+			}
 			if len(n.path) >= c.maxLen {
 				st.Exhaustive, st.CapHit, closed = false, "sequence length cap", false
 				continue
 			}
 			for op := range c.ops {
+				if len(n.path) == 0 && c.inits[n.init].SameOnly && c.entries[c.ops[op].E].Role == "other" {
+					continue
+				}
 				tasks = append(tasks, &task{n: n, op: op})
 			}
 		}
@@ -1333,10 +1416,14 @@ func (c *bCtx) bfs(st *vx.Stats, deadline time.Time, maxStates int) (levels int,
 				continue
 			}
 			edges[t.n.st.key()+"\x00"+strconv.Itoa(t.op)] = t.ns.key()
-			if _, ok := seen[t.ns.key()]; !ok {
+			if old, ok := seen[t.ns.key()]; !ok {
 				n := &bNode{st: t.ns, init: t.n.init, path: append(append([]int{}, t.n.path...), t.op)}
 				seen[t.ns.key()] = n
 				frontier = append(frontier, n)
+			} else if c.capped(old.init, len(old.path)) && !c.capped(t.n.init, len(t.n.path)+1) {
+				// first met at the end of a depth-bounded sequence, now inside the unbounded part of the search: expand it after all
+				old.init, old.path = t.n.init, append(append([]int{}, t.n.path...), t.op)
+				frontier = append(frontier, old)
 			}
 		}
 	}
@@ -1363,7 +1450,7 @@ func (c *bCtx) bfs(st *vx.Stats, deadline time.Time, maxStates int) (levels int,
 		if again != to {
 			n := seen[from]
 			seq := append(append([]int{}, n.path...), op, op)
-			if len(seq) <= c.maxLen {
+			if len(seq) <= c.maxLen && !c.capped(n.init, len(seq)-1) {
 				p := c.prefix(n.init, seq)
 				r := exec(p)
 				st.Absorb(p, &r, 0)
@@ -1392,7 +1479,7 @@ var (
 	eInSubTU   = bEntry{Cwd: "sub", Pat: "*.dat", Kinds: []int{kTrack, kTrackL, kUntrack}}        // gives sub/.gitattributes a content
 )
 
-func initPool() map[string]bInit {
+func initPool() map[string]func() *bInit {
 	rich := "# Git LFS and other attributes\n\n[attr]mybin -diff -merge -text\n*.txt text eol=lf\n*.png mybin\n\"q r.md\" text\n\t lead.sp text\nw.tab\ttext\teol=crlf\n# *.bin filter=lfs diff=lfs merge=lfs -text\nMakefile -text whitespace=-indent-with-non-tab\n"
 	crlf := strings.ReplaceAll("# crlf file\n*.txt text\n*.crlf text eol=crlf\n*.png -text\n", "\n", "\r\n")
 	present := "*.txt text\n" + lfsLine("*.bin", " lockable foo=bar") + "\nmy[[:space:]]file\\#1.dat filter=lfs -text\n*.png -text\n" + lfsLine("sub/*.dat", " lockable") + "\n"
@@ -1405,7 +1492,13 @@ func initPool() map[string]bInit {
 		big += fmt.Sprintf("*.u%03d text eol=lf diff=u%03d whitespace=trailing-space,space-before-tab,indent-with-non-tab\n", i, i)
 	}
 	pres := map[string]bool{"*.bin": true, "my file#1.dat": false, "sub/*.dat": true}
-	l := []bInit{
+	type namedInit struct {
+		Name    string
+		HasRoot bool
+		Root    string
+		Present map[string]bool
+	}
+	l := []namedInit{
 		{Name: "absent"},
 		{Name: "comments+macro+unrelated+blank-lines", HasRoot: true, Root: rich},
 		{Name: "crlf", HasRoot: true, Root: crlf},
@@ -1416,9 +1509,12 @@ func initPool() map[string]bInit {
 		{Name: "empty-file", HasRoot: true, Root: ""},
 		{Name: "big-10k", HasRoot: true, Root: big},
 	}
-	m := map[string]bInit{}
-	for _, in := range l {
-		m[in.Name] = in
+	m := map[string]func() *bInit{}
+	for i := range l {
+		in := l[i]
+		m[in.Name] = func() *bInit {
+			return &bInit{Name: in.Name, HasRoot: in.HasRoot, Root: in.Root, Present: in.Present}
+		}
 	}
 	return m
 }
@@ -1448,9 +1544,9 @@ func seqConfigs(h *harness, thorough bool) []*bCtx {
 	pool := initPool()
 	var out []*bCtx
 	for i, cf := range cfgs {
-		c := &bCtx{name: cf.name, world: cf.world, ci: i, nc: len(cfgs), h: h, entries: cf.entries, maxLen: 40}
+		c := &bCtx{name: cf.name, world: cf.world, ci: i, nc: len(cfgs), h: h, entries: cf.entries, maxLen: 40, probes: bProbes}
 		for _, n := range cf.inits {
-			c.inits = append(c.inits, pool[n])
+			c.inits = append(c.inits, pool[n]())
 		}
 		c.setup()
 		out = append(out, c)
@@ -1472,29 +1568,68 @@ func (c *bCtx) setup() {
 		}
 	}
 	for _, e := range c.entries {
-		c.den = append(c.den, c.denote(e))
+		// the denotation of an entry is a function of the entry and the probe list only: computed once per process
+		key := fmt.Sprintf("%d|%s|%v", len(c.probes), e.label(), e.Filename)
+		v, ok := c.h.denCache.Load(key)
+		if !ok {
+			v, _ = c.h.denCache.LoadOrStore(key, c.denote(e))
+		}
+		c.den = append(c.den, v.(map[string]bool))
 	}
-	// what the hand-written initial file already says: entries of the alphabet go into the model, the
-	// effect of all other lines on filter/lockable is taken from Git
-	for i := range c.inits {
-		in := &c.inits[i]
+}
+
+// initOf returns the initial file ii with its request model and static attributes computed (once):
+// what the hand-written initial file already says: entries of the alphabet go into the model, the
+// effect of all other lines on filter/lockable is taken from Git.
+func (c *bCtx) initOf(ii int) *bInit {
+	in := c.inits[ii]
+	in.once.Do(func() {
 		in.Model = map[int]bool{}
+		in.StaticLfs, in.StaticLck = map[string]bool{}, map[string]bool{}
 		for ei, e := range c.entries {
 			if l, ok := in.Present[e.label()]; ok {
 				in.Model[ei] = l
 			}
 		}
-		in.StaticLfs, in.StaticLck = map[string]bool{}, map[string]bool{}
-		if !in.HasRoot {
-			continue
+		if !in.HasRoot && !in.HasSub {
+			in.analysed = true
+			return
 		}
-		repo := c.materialize(c.initState(*in))
-		m, inc := c.h.checkAttr(repo, []string{"filter", "lockable"}, bProbes)
+		repo := c.materialize(c.initState(in))
+		m, inc := c.h.checkAttr(repo, []string{"filter", "lockable"}, c.probes)
 		os.RemoveAll(repo)
 		if inc != "" {
 			panic(vx.ToolError{Msg: inc})
 		}
-		for _, u := range bProbes {
+		if in.FromGit && len(c.den[0]) > 0 {
+			// generated file: the line of entry 0 may or may not mean "tracked" to Git (attribute spellings such as -filter,
+			// a file Git cannot parse): the request model starts from Git's own reading
+			allLfs, allLock := true, true
+			for u := range c.den[0] {
+				if m[u]["filter"] != "lfs" {
+					allLfs = false
+				}
+				if m[u]["lockable"] != "set" {
+					allLock = false
+				}
+			}
+			if allLfs {
+				in.Model[0] = allLock
+			}
+		}
+		if in.FromGit {
+			// what the other lines mean: Git's reading of the same files without the generated line
+			s := c.initState(in)
+			s.Root, s.Sub = in.NoLineRoot, in.NoLineSub
+			repo := c.materialize(s)
+			var inc string
+			m, inc = c.h.checkAttr(repo, []string{"filter", "lockable"}, c.probes)
+			os.RemoveAll(repo)
+			if inc != "" {
+				panic(vx.ToolError{Msg: inc})
+			}
+		}
+		for _, u := range c.probes {
 			ml, mk := c.modelSays(in.Model, nil, u)
 			if m[u]["filter"] == "lfs" && !ml {
 				in.StaticLfs[u] = true
@@ -1503,7 +1638,12 @@ func (c *bCtx) setup() {
 				in.StaticLck[u] = true
 			}
 		}
+		in.analysed = true
+	})
+	if !in.analysed {
+		panic(vx.ToolError{Msg: "initial file " + in.Name + " could not be analysed earlier"})
 	}
+	return in
 }
 
 func seqRun(cfgs []*bCtx) vx.RunFunc {
@@ -1567,6 +1707,17 @@ func TestVerifC19(t *testing.T) {
 	}
 	a := mkA()
 	bs := seqConfigs(h, thorough)
+	// scenario "pre": every generated pre-existing file with at most preD deviations from what git-lfs itself writes
+	// (to closure when the file has at most preClosureD deviations, otherwise every sequence of at most preDepth operations)
+	preCfg := preConfig{D: 2, ClosureD: 1, Depth: 1, Reduced: true}
+	if thorough {
+		preCfg = preConfig{D: 2, ClosureD: 1, Depth: 2}
+	}
+	if s := os.Getenv("VERIF_C19_PRE"); s != "" { // experiments only: "D,closureD,depth"
+		fmt.Sscanf(s, "%d,%d,%d", &preCfg.D, &preCfg.ClosureD, &preCfg.Depth)
+	}
+	ps := newPreSpace(h, preCfg)
+	c.Bounds["pre"] = ps.bounds()
 	c.Bounds["names_max_length"] = L
 	c.Bounds["palette"] = palette
 	c.Bounds["names"] = len(namesUpTo(L))
@@ -1595,7 +1746,13 @@ func TestVerifC19(t *testing.T) {
 		"seq: BFS to closure from each initial .gitattributes over {track, track --lockable, track --not-lockable, untrack} x entries (cwd, pattern); state = bytes of ./.gitattributes and sub/.gitattributes (absent != empty), plus the permission bits of the committed work-tree files in the configurations with an index; " +
 		"those configurations add invocations that git-lfs refuses (block-listed .gitignore / .git*) or cannot complete (pattern matching an index entry whose file is gone): for an invocation that exits non-zero only `attributes of all non-denoted probes unchanged` is demanded; " +
 		"every (state, op) pair is executed once on the real binary and `check-attr -a` over the probe paths is compared before/after; a transition is non-trivial when its pattern denotes a probe path; distinct by (state hash, op). " +
-		"Violations carry the locally minimal failing name (delete a character / replace by 'a' / move to root) so that one defect class has one fingerprint."
+		"Violations carry the locally minimal failing name (delete a character / replace by 'a' / move to root) so that one defect class has one fingerprint. " +
+		"pre: the same search and the same clauses as seq, started from pre-existing files GENERATED from a grammar: a file is a vector over 10 dimensions (line terminator, separator after the pattern, leading/trailing blanks, " +
+		"attribute list of the generated line incl. spellings that do not mean filter=lfs and a macro, pattern glob/with space, pattern spelling own/C-quoted, position of the line among unrelated/comment/blank/[attr] lines, UTF-8 BOM, " +
+		"root file / sub/.gitattributes / root file with operations inside sub/); value 0 of every dimension is what git-lfs itself writes; EVERY valid vector with at most max_deviations non-default coordinates is a start state " +
+		"(bounds.pre lists dimensions, values and counts); operations = {track, track --lockable, track --not-lockable, untrack} on the generated line's pattern and on another pattern (*.bin); files with at most " +
+		"searched_to_closure_up_to_deviations deviations are searched to closure, the others by every sequence of sequence_length_for_files_with_more_deviations operation(s); " +
+		"a failure's fingerprint names the clause, the operation, the role of its pattern (same/other/below) and the locally minimal set of deviations that still fails on the same operations (greedy removal of one deviation at a time)."
 	c.Assumptions = []string{
 		"Git 2.39 `git check-attr` is the authority on what a .gitattributes means; a pattern's denotation is what Git reports for the same pattern written C-quoted by hand",
 		"the future behaviour of track/untrack depends only on the bytes of the two attribute files (no tracked files, no info/attributes, no global attributes in the scenario)",
@@ -1605,16 +1762,23 @@ func TestVerifC19(t *testing.T) {
 		"an invocation counts as FAILED only when git-lfs exits non-zero AND its pattern matches an index entry of the scenario (refusal / touch failure are legitimate there); a non-zero exit anywhere else is judged by the full clauses",
 		"lockable clauses demand only what docs/man/git-lfs-track.adoc states: --lockable makes the denoted paths lockable; --not-lockable removes the flag (a path stays lockable only where another tracked pattern of the sequence still asks for it); plain track leaves lockable as it was",
 		"`--filename N` is read as: the gitattributes pattern that matches N with every character literal (a slash-less name therefore still matches in every directory below the attributes file, as Git defines)",
+		"pre: whether the generated line makes its pattern tracked/lockable before the first operation is taken from Git's reading of the generated file (all probes the pattern denotes report filter=lfs / lockable set), what the other lines mean from Git's reading of the same file without that line; nothing is assumed about how git-lfs parses the file",
+		"pre: a line whose pattern is P in Git's documented syntax (C-quoted, after a byte order mark, attributes given through a macro, TAB-separated) is P's assignment: `untrack P` must end Git reporting filter=lfs for P's paths, `track --not-lockable P` must end Git reporting lockable",
+		"pre: for the denoted paths only filter and lockable are judged; other attributes the replaced line carried (foo=bar, eol=...) are not demanded to survive",
 	}
 
 	// confirmation re-executes the case and its minimal form; other shrink candidates come from the exploration memo
 	execA := func(p []vx.Point) vx.Result { ca := mkA(); ca.fallback = a; return vx.SafeRun(ca.run, p) }
 	execB := func(p []vx.Point) vx.Result { return vx.SafeRun(seqRun(seqConfigs(h, thorough)), p) } // fresh memo: full re-execution
+	execP := func(p []vx.Point) vx.Result { return vx.SafeRun(newPreSpace(h, preCfg).run, p) }         // fresh memo: full re-execution, incl. the minimisation
 
 	if c.Replay != "" {
 		ex := execA
 		if rf.Scenario == "seq" {
 			ex = execB
+		}
+		if rf.Scenario == "pre" {
+			ex = execP
 		}
 		r := ex(rf.Prefix)
 		st := vx.NewStats()
@@ -1629,8 +1793,10 @@ func TestVerifC19(t *testing.T) {
 
 	only := os.Getenv("VERIF_ONLY")
 	// internal deadlines are only guards (exit 0, exhaustive:false); each scenario has its own share
+	// order: names, pre, seq (seq is the longest search of the thorough tier; under overload it is the one that is cut)
 	deadlineA := c.DeadlineAfter(100*time.Second, 14*time.Minute)
-	deadlineB := c.DeadlineAfter(170*time.Second, 23*time.Minute)
+	deadlineP := c.DeadlineAfter(160*time.Second, 18*time.Minute)
+	deadlineB := c.DeadlineAfter(215*time.Second, 24*time.Minute+30*time.Second)
 	var parts []vx.Part
 	extra := map[string]interface{}{}
 	atomic.StoreInt32(&h.exploring, 1)
@@ -1642,6 +1808,36 @@ func TestVerifC19(t *testing.T) {
 		parts = append(parts, vx.Part{Scenario: "names", Stats: stA, Exec: execA})
 		extra["names_cases_really_executed"] = atomic.LoadInt64(&h.nCases)
 		extra["names_wall_s"] = time.Since(t0).Seconds()
+	}
+	if only == "" || only == "pre" {
+		t0 := time.Now()
+		stP := vx.NewStats()
+		maxStates := 4000 // the unchanged tree closes at ~800 (quick) / ~2600 (thorough) states per run; a tree on which files grow without bound is cut here
+		if thorough {
+			maxStates = 20000
+		}
+		allClosed := true
+		var per []map[string]interface{}
+		for _, b := range ps.cfgs {
+			t1 := time.Now()
+			n0, tr0 := len(stP.States), stP.Transitions
+			levels, closed := b.bfs(stP, deadlineP, maxStates)
+			allClosed = allClosed && closed
+			per = append(per, map[string]interface{}{"config": b.name, "initial_files": len(b.inits), "closure_reached": closed, "bfs_levels": levels, "new_states": len(stP.States) - n0, "transitions": stP.Transitions - tr0, "wall_s": time.Since(t1).Seconds()})
+		}
+		h.release("pre", stP)
+		parts = append(parts, vx.Part{Scenario: "pre", Stats: stP, Exec: execP})
+		if n := len(stP.Samples); n > 0 {
+			if n > 4 {
+				n = 4
+			}
+			extra["pre_samples"] = stP.Samples[:n]
+		}
+		extra["pre_closure_reached"] = allClosed
+		extra["pre_per_configuration"] = per
+		extra["pre_steps_really_executed"] = atomic.LoadInt64(&h.nPre)
+		extra["pre_steps_executed_for_minimisation"] = atomic.LoadInt64(&h.nShrink)
+		extra["pre_wall_s"] = time.Since(t0).Seconds()
 	}
 	if only == "" || only == "seq" {
 		t0 := time.Now()
